@@ -131,15 +131,17 @@ def numpy_steps(M, rec, rng, n_nets, draws=3, opts_prob=0.0, on_case=None, regim
                 on_case(case, built)
 
 
-def small_valid_steps(M, rec, rng, nmax, k=0, n=1, before_case=None, seed=0):
+def small_valid_steps(M, rec, rng, nmax, k=0, n=1, before_case=None, seed=0, kinds_full=True, only_n=None):
     """Every valid (topology, role) assignment on <= nmax labelled nodes (self-loops included),
     each stepped once with the NumPy engine (sharded by index)."""
     NE, CE = drive.engines(M)
     g = G.NetGen(rng)
     import random as _r
 
-    for i, desc in enumerate(G.all_valid_small(nmax, _r.Random(seed))):
+    for i, desc in enumerate(G.all_valid_small(nmax, _r.Random(seed), kinds_full=kinds_full)):
         if i % n != k:
+            continue
+        if only_n is not None and len(desc["nodes"]) != only_n:
             continue
         built = D.build(M, desc, D.random_ops(desc, rng) if rng.random() < 0.5 else None)
         regime, vals = g.values(desc)
@@ -152,7 +154,7 @@ def small_valid_steps(M, rec, rng, nmax, k=0, n=1, before_case=None, seed=0):
             built.net.step(init_conditions=drive.np_init(built, vals, "vec1"), engine=NE(), **drive.step_pars(pars))
         except Exception:
             pass
-    rec.extra["exhaustive_small_nmax"] = nmax
+    rec.extra["exhaustive_small_nmax"] = max(nmax, rec.extra.get("exhaustive_small_nmax", 0))
 
 
 def symbolic_param_steps(M, rec, rng, symvals, n_nets, before_case=None):
